@@ -8,6 +8,7 @@ import (
 	"os"
 	"reflect"
 	"testing"
+	"time"
 )
 
 func aliasNative(a, b any) bool {
@@ -92,13 +93,31 @@ func ReplayMain(t *testing.T, harnesses map[string]func()) {
 		if !ok {
 			t.Fatalf("unknown harness %s", c.Harness)
 		}
-		r := RunCase(c, h)
+		// a case that does not return within the limit is reported as a failed
+		// "terminates" assertion; the process then exits (the hung goroutine
+		// cannot be stopped) and the runner restarts with the remaining cases
+		done := make(chan Result, 1)
+		go func(c *Case, h func()) { done <- RunCase(c, h) }(c, h)
+		var r Result
+		timedOut := false
+		select {
+		case r = <-done:
+		case <-time.After(8 * time.Second):
+			r = Result{ID: c.ID, Harness: c.Harness, Failed: []string{"terminates"}, Timeout: true}
+			timedOut = true
+		}
 		jb, _ := json.Marshal(r)
 		if f != nil {
 			f.Write(append(jb, '\n'))
 			f.Sync()
 		} else {
 			fmt.Println(string(jb))
+		}
+		if timedOut {
+			if f != nil {
+				f.Close()
+			}
+			os.Exit(0)
 		}
 	}
 }
